@@ -58,7 +58,15 @@ def check(case, ctx):
         want = RI.interpret(t, rm)
         rows = want['rows']
         try:
+            for r in rows:
+                pm.has_role(r['triple'][1])      # a client may validate the roles first (pure calls)
             g = layout.interpret(Tree(t), pm)
+            if ctx.sub == 'modelroles':
+                import penman
+                gs = penman.loads(penman.format(Tree(t)), model=pm)      # the stream entry point must use the model too
+                if len(gs) != 1 or list(gs[0].triples) != list(g.triples):
+                    ctx.fail(f'loads(text, model) reads the text differently from interpret(tree, model) under {name}', expected=list(g.triples), observed=[list(x.triples) for x in gs])
+                    return
             ctxs = layout.node_contexts(g)
             pushed = [layout.get_pushed_variable(g, r['triple']) for r in rows]
             inv = [layout.appears_inverted(g, r['triple']) for r in rows]
